@@ -21,6 +21,10 @@ use synth_utils::lfo::{Lfo, Waveshape};
 use synth_utils::mono_midi_receiver::{MonoMidiReceiver, NotePriority, RetriggerMode};
 use synth_utils::quantizer::{Note, Quantizer};
 use synth_utils::ribbon_controller::{sample_rate_to_capacity, RibbonController};
+use synth_utils::verif_hooks::{
+    fabs, ilog_2, is_almost, linear_interp, PhaseAccumulator, ADSR_ATTACK_TABLE, ADSR_DECAY_TABLE,
+    SINE_TABLE,
+};
 
 fn f(s: &str) -> f32 {
     f32::from_bits(u32::from_str_radix(s, 16).expect("bad float hex"))
@@ -79,8 +83,72 @@ fn make_ribbon(cap: usize, fs: f32, sp: f32, dr: f32, pu: f32) -> Option<Box<dyn
     )
 }
 
+// the crate-private phase accumulator, reached through the verif_hooks re-export
+trait PaDyn {
+    fn tick(&mut self);
+    fn freq(&mut self, x: f32);
+    fn period(&mut self, x: f32);
+    fn phase(&mut self, x: f32);
+    fn reset(&mut self);
+    fn rolled(&mut self) -> bool;
+    fn line(&self) -> String;
+}
+
+impl<const T: u32, const I: u32> PaDyn for PhaseAccumulator<T, I> {
+    fn tick(&mut self) {
+        PhaseAccumulator::tick(self)
+    }
+    fn freq(&mut self, x: f32) {
+        self.set_frequency(x)
+    }
+    fn period(&mut self, x: f32) {
+        self.set_period(x)
+    }
+    fn phase(&mut self, x: f32) {
+        self.set_phase(x)
+    }
+    fn reset(&mut self) {
+        PhaseAccumulator::reset(self)
+    }
+    fn rolled(&mut self) -> bool {
+        self.rolled_over()
+    }
+    fn line(&self) -> String {
+        format!(
+            "{} {} {} {}",
+            self.verif_acc(),
+            p(self.ramp()),
+            self.index(),
+            p(self.fraction())
+        )
+    }
+}
+
+macro_rules! pa_kinds {
+    ($t:expr, $i:expr, $fs:expr, $(($tt:literal, $ii:literal)),*) => {
+        match ($t, $i) {
+            $( ($tt, $ii) => Some(Box::new(PhaseAccumulator::<$tt, $ii>::new($fs)) as Box<dyn PaDyn>), )*
+            _ => None,
+        }
+    };
+}
+
+fn make_pa(t: u32, i: u32, fs: f32) -> Option<Box<dyn PaDyn>> {
+    pa_kinds!(t, i, fs, (24, 10), (24, 8), (16, 4), (10, 10), (30, 12), (8, 1), (12, 12), (20, 10))
+}
+
+fn table(name: &str) -> &'static [f32] {
+    match name {
+        "sine" => &SINE_TABLE,
+        "attack" => &ADSR_ATTACK_TABLE,
+        _ => &ADSR_DECAY_TABLE,
+    }
+}
+
 enum Obj {
     None,
+    Prim,
+    Pa(Box<dyn PaDyn>),
     Adsr(Adsr),
     Lfo(Lfo),
     Quant(Quantizer),
@@ -191,6 +259,18 @@ fn exec(obj: &mut Obj, line: &str) -> String {
                 None => return "UNSUPPORTED-CAPACITY".to_string(),
             }
         }
+        "prim.new" => {
+            *obj = Obj::Prim;
+        }
+        "pa.new" => {
+            // pa.new <total bits> <index bits> <fs>
+            let t = a1.unwrap().parse::<u32>().unwrap();
+            let i = a2.unwrap().parse::<u32>().unwrap();
+            match make_pa(t, i, f(a3.unwrap())) {
+                Some(x) => *obj = Obj::Pa(x),
+                None => return "UNSUPPORTED-PA".to_string(),
+            }
+        }
         "ribbon.cap" => {
             // pure helper: sample_rate_to_capacity
             let fs = a1.unwrap().parse::<u32>().unwrap();
@@ -200,6 +280,52 @@ fn exec(obj: &mut Obj, line: &str) -> String {
     }
     match obj {
         Obj::None => "NOOBJ".to_string(),
+        Obj::Prim => match op {
+            "prim.new" => "prim".to_string(),
+            "interp" => p(linear_interp(f(a1.unwrap()), f(a2.unwrap()), f(a3.unwrap()))),
+            "ilog2" => format!(
+                "{}",
+                ilog_2(usize::from_str_radix(a1.unwrap(), 16).expect("bad hex"))
+            ),
+            "almost" => format!(
+                "{}",
+                is_almost(f(a1.unwrap()), f(a2.unwrap()), f(a3.unwrap())) as u8
+            ),
+            "fabs" => p(fabs(f(a1.unwrap()))),
+            "tab" => {
+                let i = a2.unwrap().parse::<usize>().unwrap();
+                p(table(a1.unwrap())[i])
+            }
+            "tabhash" => {
+                // length and FNV-1a hash of all entries of a lookup table, as the compiler read them
+                let t = table(a1.unwrap());
+                let mut h: u64 = 0xcbf29ce484222325;
+                for x in t {
+                    for b in p(*x).as_bytes() {
+                        h ^= *b as u64;
+                        h = h.wrapping_mul(0x100000001b3);
+                    }
+                }
+                format!("n={} h={:016x}", t.len(), h)
+            }
+            _ => format!("BADOP {}", op),
+        },
+        Obj::Pa(x) => {
+            match op {
+                "pa.new" => {}
+                "tick" => x.tick(),
+                "freq" => x.freq(f(a1.unwrap())),
+                "period" => x.period(f(a1.unwrap())),
+                "phase" => x.phase(f(a1.unwrap())),
+                "reset" => x.reset(),
+                "roll" => {
+                    let r = x.rolled();
+                    return format!("{} r={}", x.line(), r as u8);
+                }
+                _ => return format!("BADOP {}", op),
+            }
+            x.line()
+        }
         Obj::Adsr(a) => {
             match op {
                 "adsr.new" => {}
